@@ -20,7 +20,7 @@ pub fn set_hash_mask(mask: u32) {
 // ---------------------------------------------------------------------------------------------
 // scheduling points and notifications for the concurrency checks
 
-use std::sync::{atomic::AtomicBool, Arc, RwLock};
+use std::sync::{atomic::AtomicBool, Arc};
 
 /// Where a thread is about to do something another thread could interfere with. The hook may
 /// block the calling thread here (deterministic scheduling).
@@ -76,7 +76,7 @@ pub trait Hook: Send + Sync {
 }
 
 static ENABLED: AtomicBool = AtomicBool::new(false);
-static HOOK: RwLock<Option<Arc<dyn Hook>>> = RwLock::new(None);
+static HOOK: std::sync::RwLock<Option<Arc<dyn Hook>>> = std::sync::RwLock::new(None);
 
 pub fn set_hook(hook: Option<Arc<dyn Hook>>) {
     ENABLED.store(hook.is_some(), Ordering::SeqCst);
@@ -105,26 +105,109 @@ pub fn note(n: Note) {
     }
 }
 
-/// Emits `Released` when dropped. Declare it *after* the lock guard so that it is dropped first.
-#[derive(Debug)]
-pub struct LockScope {
-    addr:  usize,
-    write: bool,
-    what:  LockKind,
+/// Drop-in replacement for `parking_lot::RwLock` inside the red tree (`syntax/node.rs` imports this
+/// type instead when the flag is on): every acquisition is a scheduling point, and acquisition and
+/// release are notified. A lock around a zero-sized value is one of the per-slot locks, any other
+/// is a per-node data lock.
+#[derive(Debug, Default)]
+pub struct RwLock<T> {
+    inner: parking_lot::RwLock<T>,
 }
 
-impl LockScope {
-    pub fn new(addr: usize, write: bool, what: LockKind) -> Self {
-        note(Note::Acquired { addr, write, what });
-        LockScope { addr, write, what }
+pub struct RwLockReadGuard<'a, T> {
+    addr:  usize,
+    what:  LockKind,
+    guard: parking_lot::RwLockReadGuard<'a, T>,
+}
+
+pub struct RwLockWriteGuard<'a, T> {
+    addr:  usize,
+    what:  LockKind,
+    guard: parking_lot::RwLockWriteGuard<'a, T>,
+}
+
+impl<T> std::fmt::Debug for RwLockReadGuard<'_, T> {
+    fn fmt(&self, f: &mut std::fmt::Formatter<'_>) -> std::fmt::Result {
+        write!(f, "RwLockReadGuard({:#x})", self.addr)
     }
 }
 
-impl Drop for LockScope {
+impl<T> std::fmt::Debug for RwLockWriteGuard<'_, T> {
+    fn fmt(&self, f: &mut std::fmt::Formatter<'_>) -> std::fmt::Result {
+        write!(f, "RwLockWriteGuard({:#x})", self.addr)
+    }
+}
+
+impl<T> RwLock<T> {
+    pub fn new(value: T) -> Self {
+        RwLock {
+            inner: parking_lot::RwLock::new(value),
+        }
+    }
+
+    fn what() -> LockKind {
+        if std::mem::size_of::<T>() == 0 {
+            LockKind::Slot
+        } else {
+            LockKind::Data
+        }
+    }
+
+    pub fn read(&self) -> RwLockReadGuard<'_, T> {
+        let (addr, what) = (self as *const _ as usize, Self::what());
+        point(Point::Lock { addr, write: false, what });
+        let guard = self.inner.read();
+        note(Note::Acquired { addr, write: false, what });
+        RwLockReadGuard { addr, what, guard }
+    }
+
+    pub fn write(&self) -> RwLockWriteGuard<'_, T> {
+        let (addr, what) = (self as *const _ as usize, Self::what());
+        point(Point::Lock { addr, write: true, what });
+        let guard = self.inner.write();
+        note(Note::Acquired { addr, write: true, what });
+        RwLockWriteGuard { addr, what, guard }
+    }
+}
+
+impl<T> std::ops::Deref for RwLockReadGuard<'_, T> {
+    type Target = T;
+
+    fn deref(&self) -> &T {
+        &self.guard
+    }
+}
+
+impl<T> std::ops::Deref for RwLockWriteGuard<'_, T> {
+    type Target = T;
+
+    fn deref(&self) -> &T {
+        &self.guard
+    }
+}
+
+impl<T> std::ops::DerefMut for RwLockWriteGuard<'_, T> {
+    fn deref_mut(&mut self) -> &mut T {
+        &mut self.guard
+    }
+}
+
+// `drop` runs before the fields are dropped: the release is notified before it happens
+impl<T> Drop for RwLockReadGuard<'_, T> {
     fn drop(&mut self) {
         note(Note::Released {
             addr:  self.addr,
-            write: self.write,
+            write: false,
+            what:  self.what,
+        });
+    }
+}
+
+impl<T> Drop for RwLockWriteGuard<'_, T> {
+    fn drop(&mut self) {
+        note(Note::Released {
+            addr:  self.addr,
+            write: true,
             what:  self.what,
         });
     }
